@@ -91,7 +91,15 @@ def codeTok (tbl : List Atom) : Tok → CTok
 
 def codePath (tbl : List Atom) (p : SkelPath) : CPath := (p.1.map (codeTok tbl), p.2)
 
-def bodyEq (a b : CBody) : Bool := a.all (b.contains ·) && b.all (a.contains ·)
+/-- one number per path of a loop body: the indices as digits (each + 1, so no digit is 0) in a base
+larger than every digit, behind a leading 1, the abort flag as the last bit — injective; the kernel
+compares numbers fast, lists slowly -/
+def encPath (base : Nat) (q : List Nat × Bool) : Nat :=
+  2 * q.1.foldl (fun acc k => acc * base + (k + 1)) 1 + (if q.2 then 1 else 0)
+
+def natSetEq (a b : List Nat) : Bool := a.all (b.contains ·) && b.all (a.contains ·)
+
+def bodyEq (base : Nat) (a b : CBody) : Bool := natSetEq (a.map (encPath base)) (b.map (encPath base))
 
 def bodiesOf (ps : List CPath) : List CBody :=
   ps.flatMap fun p => p.1.filterMap fun t => match t with
@@ -104,18 +112,19 @@ def stripBodies (p : CPath) : CPath :=
     | .range _ => .range []
     | t => t, p.2)
 
-/-- Equality of two coded path lists as sets, the bodies of `range` loops being sets themselves.
+/-- Equality of two coded path lists as sets, the bodies of `range` loops being sets themselves
+(`base` > every index + 1: indices are at most the length of the table).
 Decided by a sufficient condition that is cheap to evaluate: the lists are equal as sets once the loop
 bodies are blanked, AND all loop bodies that occur on either side are one and the same set (true for
 the functions compared here: one `range` loop; a function with two different loops would need a
 position-wise comparison — the check would fail, not pass wrongly). -/
-def sameSetN (a b : List CPath) : Bool :=
+def sameSetN (base : Nat) (a b : List CPath) : Bool :=
   let sa := a.map stripBodies
   let sb := b.map stripBodies
   sa.all (sb.contains ·) && sb.all (sa.contains ·) &&
   match (bodiesOf a ++ bodiesOf b).eraseDups with
   | [] => true
-  | r :: rest => rest.all (bodyEq r)
+  | r :: rest => rest.all (bodyEq base r)
 
 /-- every index used by the regenerated paths is an index of the table -/
 def indicesOK (n : Nat) (g : List CPath) : Bool :=
@@ -128,6 +137,6 @@ def tableOK (tbl : List Atom) : Bool := tbl.eraseDups.length == tbl.length
 
 /-- **the comparison**: `g` (regenerated, over `tbl`) and `m` (paths of the Lean program) are the same set -/
 def sameSet (tbl : List Atom) (g : List CPath) (m : List SkelPath) : Bool :=
-  tableOK tbl && indicesOK tbl.length g && sameSetN g (m.map (codePath tbl))
+  tableOK tbl && indicesOK tbl.length g && sameSetN (tbl.length + 2) g (m.map (codePath tbl))
 
 end NA.Ios
